@@ -49,12 +49,41 @@ def flat_part(ck, tier, lab):
     return len(rows)
 
 
+def services_part(ck, tier, lab):
+    """every event the real services emit while the canonical dialogues (and every grammar token) of all 24 services run
+    against the real server: it serialises, and its payload fields agree with each other (hex decodes to `length` bytes)"""
+    import life, protocols as P
+    scs = []
+    rng = __import__("random").Random(lib.seed())
+    for key, g in P.GRAMMAR.items():
+        shapes = [{"prefix": len(g["canon"]), "ops": [], "ending": "shut", "seg": "whole", "k": 1}]
+        shapes += [{"prefix": len(g["canon"]), "ops": [{"o": "tok", "i": i}], "ending": "close", "seg": "whole", "k": 1} for i in range(1, len(g["tokens"]) + 1)]
+        shapes += [{"prefix": pre, "ops": [{"o": "raw", "i": c}], "ending": "close", "seg": "whole", "k": 1} for pre in (0, len(g["canon"])) for c in range(1, 6)]
+        for sh in shapes:
+            scs.append(life.scenario(key, sh, len(scs), rng))
+    res = life.run_child(lab, scs, "c05svc", 1500, 0)
+    rep = res["report"]
+    if rep is None:
+        raise lib.Infra("the service exploration for C05 did not finish (rc=%s): %s" % (res["rc"], res["stderr"][-800:]))
+    ev = rep["events"]
+    if ev["total"] < 100:
+        raise lib.Infra("only %d events were emitted by the services" % ev["total"])
+    for smp in ev["samples"] or []:
+        kind = "unserialisable" if smp["problem"].startswith("json") else "payload-fields-disagree"
+        ck.disagree("service-event/%s/%s" % (kind, smp["category"]), "an event of category %s, type %s: %s" % (smp["category"], smp["type"], smp["problem"]),
+                    {"services": True, "sample": smp})
+    ck.cov["service_events"] = {"events": ev["total"], "unserialisable": ev["unserialisable"], "payload_fields_disagree": ev["payload_fields_disagree"],
+                                "dialogues": len(scs)}
+    return ev["total"]
+
+
 def run(tier, lab):
     ck = lib.Check(PROP, tier, "model_checking")
     n1 = table_part(ck, tier, lab)
     n2 = flat_part(ck, tier, lab)
+    n3 = services_part(ck, tier, lab)
     ck.cov.update({
-        "traces_validated_against_impl": n1 + 1, "option_transitions_tested": n1, "flat_trace_lines": n2,
+        "traces_validated_against_impl": n1 + 1, "option_transitions_tested": n1, "flat_trace_lines": n2, "service_events_checked": n3,
         "evaluations": n1 + n2, "distinct_nontrivial": n1, "exhaustive": True,
         "rule": "every (store, option) transition of Event.tla over the small alphabet is one implementation test "
                 "(ToMap, raw payload, json.Marshal keys); flat space: all 65,793 payloads of length <= 2 plus seeded long ones",
